@@ -196,6 +196,17 @@ theorem uncached_holds_nothing (env : Env) (lt : Node → Node → Prop) (ho : S
     lookup (C08.run env {} ops).data m = none :=
   C08.uncached_holds_nothing env lt ho hr ops m hc
 
+/-- …**in every state reachable by the full edit language** (`C02.Op`: also reference, formula and
+flag edits – "flag changes at any point of a history" –, cells deleted and created): a cells that is
+uncached NOW holds nothing, and the graph has an object node only for such a cells. -/
+theorem uncached_holds_nothing_full (lt : Node → Node → Prop) (ho : StrictOrder lt) (env0 : Env)
+    (hw0 : C02.WF env0 lt) (ops : List C02.Op) (hadm : C02.Admissible lt (env0, {}) ops) (m : Node)
+    (hc : (C02.run (env0, {}) ops).1.cached m.1 = false) :
+    lookup (C02.run (env0, {}) ops).2.data m = none ∧
+    (∀ c, GNode.obj c ∈ (C02.run (env0, {}) ops).2.gn → (C02.run (env0, {}) ops).1.cached c = false) :=
+  ⟨C08.uncached_holds_nothing_full lt ho env0 hw0 ops hadm m hc,
+   fun c h => (C08.object_nodes_only_for_uncached_full lt ho env0 hw0 ops hadm c h).1⟩
+
 /-- **…and are re-executed on every call**: a call of an uncached cells always reaches the
 formula evaluator, whatever the cache holds; its arguments are never looked up.  (`keepExc`: when
 the call returns, the caller's exception identity is what it was – bookkeeping of C17 that no value,
